@@ -123,6 +123,9 @@ func runC16(e *Env) {
 		if !inGroup && (t.Idx/combos)%2 == 1 && base == "/api/" {
 			base = "/{tenant}/" // a base path with a variable: create and show are both dynamic routes then
 		}
+		if !inGroup && (t.Idx/combos)%2 == 1 && base == "/v1/admin/" {
+			base = "/V1/Admin/" // the base path is the caller's text: only the controller name is lower-cased
+		}
 		second := !inGroup && (t.Idx/combos+t.Idx)%3 == 0 // the same controller type is mounted a second time under another base
 		cacheOn := t.Idx%3 == 0
 		t.Describe(func() any {
